@@ -43,6 +43,7 @@ def run(ctx):
     check_clients(ctx, prog)
     check_zero_read(ctx, prog)
     check_frame_kept(ctx, prog, recv)
+    check_frame_vars(ctx, prog, recv)
     check_payload_index(ctx, prog, recv)
     check_alive(ctx, prog)
     check_send_effect(ctx, prog, send)
@@ -867,3 +868,153 @@ def check_payload_index(ctx, prog, recv):
             ctx.ok('C11.payloadidx', recv['pq'], role, fwhere(recv, e.get('l')), 'only reached for payloads of at least %d byte(s)' % need)
     if not n:
         ctx.ok('C11.payloadidx', recv['pq'], 'receive:constant positions in the payload', fwhere(recv), 'receive() reads no constant position of the payload buffer', nontrivial=False)
+
+
+
+def check_frame_vars(ctx, prog, recv):
+    """C11.framevars: what receive() knows about a frame comes from that frame.
+    (a) per-iteration definite assignment: a scalar local that is filled from the socket inside the frame loop - or computed
+        from such a local - is, on every path of one iteration, assigned in that iteration before it is read (a declaration
+        with an initialiser inside the loop counts).  A masking key or flag that survives from the previous frame is applied to
+        a frame it does not belong to.
+    (b) the tests that select the length form (comparison of a local with 126 and 127, or a switch with those cases) see only
+        the 7-bit field of the second header byte: no definition that reads an extended length from the socket reaches them
+        (an extended length of 127 is a length, not a marker)."""
+    import cfg as cfgm
+    loops = [s_ for s_ in ir.walk_stmts(recv['body']) if s_.get('k') in ('while', 'for', 'do')]
+
+    def sock_call(e):
+        if e.get('k') != 'call':
+            return False
+        if (e.get('pq') or '').startswith(('asl::Socket::', 'asl::Socket_::')):
+            return True
+        return e.get('obj') is not None and any(w.get('k') == 'mem' and w.get('f') == '_socket' for w in walk_expr(e['obj']))
+
+    def out_args(e):
+        """locals a socket call writes: operands of operator>> (chained) and `&x` arguments"""
+        out = []
+        if e.get('k') == 'call' and sock_call(e):
+            for a in e.get('a') or []:
+                a_ = strip_lv(a)
+                if (e.get('pq') or e.get('fn') or '').endswith('operator>>') and a_.get('k') == 'var':
+                    out.append(a_)
+                a2 = strip(a)
+                while a2.get('k') in ('cast', 'paren'):
+                    a2 = strip(a2['e'])
+                if a2.get('k') == 'un' and a2.get('op') == '&' and strip_lv(a2['e']).get('k') == 'var':
+                    out.append(strip_lv(a2['e']))
+        return out
+    frame = [lp for lp in loops if any(sock_call(e) for e in ir.stmt_exprs(lp['body']))]
+    role = 'receive:frame variables are assigned in the iteration that reads them'
+    if not frame:
+        ctx.undecided('C11.framevars', recv['pq'], role, fwhere(recv), 'frame loop (a loop reading from the socket) not found')
+        return
+    lp = frame[0]
+
+    def scalar(v):
+        t = T(recv, v.get('dt') or v.get('t'))
+        if t.get('ref'):
+            t = T(recv, t.get('to'))
+        return bool(t.get('int') or t.get('flt')) and not t.get('rec')
+    body_exprs = list(ir.stmt_exprs(lp['body']))
+    tracked = {}
+    for e in body_exprs:
+        for a_ in out_args(e):
+            if scalar(a_):
+                tracked[a_['id']] = a_.get('n')
+    changed = True
+    while changed:
+        changed = False
+        for e in body_exprs:
+            if e.get('k') == 'bin' and e.get('op') == '=' and strip_lv(e['x']).get('k') == 'var' and scalar(strip_lv(e['x'])) and strip_lv(e['x'])['id'] not in tracked:
+                if any((w.get('k') == 'var' and w.get('id') in tracked) or sock_call(w) for w in walk_expr(e['y'])):
+                    tracked[strip_lv(e['x'])['id']] = strip_lv(e['x']).get('n')
+                    changed = True
+        for s_ in ir.walk_stmts(lp['body']):
+            if s_.get('k') == 'decl':
+                for v in s_['vars']:
+                    if v['id'] not in tracked and v.get('init') is not None and scalar(v) and any((w.get('k') == 'var' and w.get('id') in tracked) or sock_call(w) for w in walk_expr(v['init'])):
+                        tracked[v['id']] = v['n']
+                        changed = True
+    g = cfgm.CFG(dict(recv, body=lp['body'], inits=[]))
+    problems = []
+
+    def step(nd, st):
+        if nd.kind == 'decl':
+            v = nd.info
+            if v.get('init') is not None:
+                for w in walk_expr(v['init']):
+                    if w.get('k') == 'var' and w.get('id') in tracked and w['id'] not in st:
+                        problems.append((nd.line, tracked[w['id']]))
+            if v['id'] in tracked:
+                return st | frozenset([v['id']]) if v.get('init') is not None else st - frozenset([v['id']])
+            return st
+        if nd.kind not in ('ev', 'br', 'ret', 'sw') or nd.e is None:
+            return st
+        e = nd.e
+        if nd.kind == 'ev' and strip_lv(e).get('k') == 'var':
+            return st               # operand evaluation of a larger expression: the read or write happens at the parent node
+        defs = set()
+        writes = set()
+        for w in walk_expr(e):
+            if w.get('k') == 'bin' and w.get('op') == '=' and strip_lv(w['x']).get('k') == 'var':
+                defs.add(strip_lv(w['x'])['id'])
+                writes.add(id(strip_lv(w['x'])))
+            for a_ in out_args(w):
+                defs.add(a_['id'])
+                writes.add(id(a_))
+        for w in walk_expr(e):
+            if w.get('k') == 'var' and w.get('id') in tracked and id(w) not in writes and w['id'] not in st:
+                problems.append((nd.line, tracked[w['id']]))
+        return st | frozenset(d for d in defs if d in tracked)
+    reached, _ = cfgm.dataflow(g, frozenset(), step)
+    ctx.evaluations += sum(len(v) for v in reached.values())
+    ctx.info['frame_variables'] = sorted(set(tracked.values()))
+    if len(tracked) < 2:
+        ctx.undecided('C11.framevars', recv['pq'], role, fwhere(recv, lp.get('l')), 'fewer than two header variables filled from the socket were found in the frame loop')
+    else:
+        pr = sorted(set(problems))
+        ctx.check(not pr, 'C11.framevars', recv['pq'], role, fwhere(recv, pr[0][0] if pr else lp.get('l')), '%d frame variables (%s): each read is preceded by an assignment in the same iteration on every path' % (len(tracked), ', '.join(sorted(set(tracked.values())))),
+                  '`%s` is read at line %s on a path of the frame loop that has not assigned it in this iteration: it still holds what an earlier frame left (a masking key or flag of a masked frame applied to a later unmasked one corrupts its payload)' % (pr[0][1] if pr else '', pr[0][0] if pr else ''))
+    # (b) reaching definitions at the length-form tests
+    role = 'receive:length-form markers tested on the 7-bit field only'
+    g2 = cfgm.CFG(recv)
+    marks = {}
+    for e in fn_exprs(recv):
+        if e.get('k') == 'bin' and e.get('op') in ('==', '!=') and const_val(e['y']) in (126, 127) and strip_lv(e['x']).get('k') == 'var':
+            marks.setdefault(strip_lv(e['x'])['id'], set()).add(const_val(e['y']))
+        if e.get('k') == 'bin' and e.get('op') in ('==', '!=') and const_val(e['x']) in (126, 127) and strip_lv(e['y']).get('k') == 'var':
+            marks.setdefault(strip_lv(e['y'])['id'], set()).add(const_val(e['x']))
+    lens = [vid for vid, cs in marks.items() if cs == set((126, 127))]
+    if len(lens) != 1:
+        ctx.info['length_form_tests'] = 'no single local compared with both 126 and 127 (switch or table form): rule (b) not applicable'
+        return
+    lv = lens[0]
+
+    def seven_bit(rhs):
+        r = strip(q.expand(recv, rhs))
+        while r.get('k') in ('cast', 'paren'):
+            r = strip(r['e'])
+        return r.get('k') == 'bin' and r.get('op') == '&' and any(const_val(r[k_]) is not None and 0 <= const_val(r[k_]) <= 127 for k_ in ('x', 'y'))
+    bad = []
+
+    def step2(nd, st):
+        if nd.kind == 'decl' and nd.info['id'] == lv:
+            return ('7' if nd.info.get('init') is not None and seven_bit(nd.info['init']) else 'other', nd.line)
+        if nd.e is None:
+            return st
+        if nd.kind == 'br':
+            for w in walk_expr(nd.e):
+                if w.get('k') == 'bin' and w.get('op') in ('==', '!=') and (const_val(w['y']) in (126, 127) or const_val(w['x']) in (126, 127)) and \
+                        any(x.get('k') == 'var' and x.get('id') == lv for x in walk_expr(w)) and st[0] != '7':
+                    bad.append((nd.line, st[1]))
+        for w in walk_expr(nd.e):
+            if w.get('k') == 'bin' and w.get('op') == '=' and strip_lv(w['x']).get('k') == 'var' and strip_lv(w['x'])['id'] == lv:
+                st = ('7' if seven_bit(w['y']) else 'other', nd.line)
+            elif w.get('k') == 'bin' and w.get('op', '').endswith('=') and w['op'] not in ('==', '!=', '<=', '>=') and strip_lv(w['x']).get('k') == 'var' and strip_lv(w['x'])['id'] == lv:
+                st = ('other', nd.line)
+        return st
+    cfgm.dataflow(g2, ('none', 0), step2)
+    bd = sorted(set(bad))
+    ctx.check(not bd, 'C11.framevars', recv['pq'], role, fwhere(recv, bd[0][0] if bd else None), 'every comparison with 126 / 127 is reached only by the `& 0x7f` definition',
+              'the comparison with the form marker at line %s is reached by the definition at line %s, which is not the 7-bit field: an extended length of 126 or 127 is taken for a marker, further header bytes are read from the payload and the connection is lost' % (bd[0][0] if bd else '', bd[0][1] if bd else ''))
